@@ -33,7 +33,8 @@ RETURNS = ["none", "zero", "false", "emptystr", "emptylist", "str", "object", "d
 RAISES = ["LookupError", "KeyError", "ValueError", "CustomWithArgs", "RuntimeError", "OSError", "AssertionError", "StopAsyncIteration",
           "TimeoutError", "InvalidStateError", "FuturesCancelledError", "ExceptionGroup"]
 BRIDGE_KINDS = {"TimeoutError", "InvalidStateError", "FuturesCancelledError", "CancelledError"}
-ARGS = [([], {}), ([1], {}), ([], {"k": 1}), ([1, "two"], {"k": 1}), ([[1, 2]], {"opt": {"x": 1}})]
+ARGS = [([], {}), ([1], {}), ([], {"k": 1}), ([1, "two"], {"k": 1}), ([[1, 2]], {"opt": {"x": 1}}),
+        (["<grumpy>"], {}), ([1, "<grumpy>"], {"k": 1})]  # <grumpy>: an object whose repr() raises
 
 
 def plan(tier, seed):
@@ -86,8 +87,16 @@ def gen_case(rnd, spec):
             kids = [new(rnd.choice(common.FLAVOURS)) for _ in range(rnd.randint(1, 3))]
             caller = {"id": "tcaller%d" % n[0], "flavour": "threading", "cleanup": {"kind": "none"},
                       "program": [["execute", k["id"]] for k in kids] + [["mark", "caller-done"]]}
-            gen["payloads"].append(caller)
-            script += [["adopt", caller["id"]], ["wait_event", "mark", caller["id"], 6.0]]
+            if rnd.random() < 0.35:
+                # queued before the runtime starts - ahead of everything else, so its flavour is unqueued first: its executes
+                # are among the very first things that happen in the run
+                gen["payloads"].insert(0, caller)
+                caller["when"] = "queued"
+                script += [["wait_event", "mark", caller["id"], 6.0]]
+                gen.setdefault("tags", []).append("early")
+            else:
+                gen["payloads"].append(caller)
+                script += [["adopt", caller["id"]], ["wait_event", "mark", caller["id"], 6.0]]
         elif ctx == "coroutine":
             src, dst = direction.split("_to_")
             kids = [new(rnd.choice([dst, "threading"])) for _ in range(rnd.randint(1, 3))]
@@ -180,6 +189,8 @@ def judge(case, run, result):
         result.count("executes_judged")
         result.count("executes_%s_from_%s" % (sp["flavour"], "outside" if call["by"].startswith("driver") else call["by"].rstrip("0123456789")))
         result.count("executes_of_callable_kind_%s" % sp.get("callable", "function"))
+        if call["by"].startswith("tcaller") and specs.get(call["by"], {}).get("when") == "queued":
+            result.count("executes_by_thread_payloads_queued_before_start")
         if not st["args_ok"]:
             problems.append(("execute(%s): payload did not receive exactly the supplied arguments %r %r" % (pid, sp["args"], sp["kwargs"]), None))
         # a plain callable's synchronous first section (logged as step -1) belongs to the flavour's runner like the rest
@@ -328,7 +339,7 @@ def finish(total, tier):
             "executes_asyncio_from_tcaller", "executes_trio_from_tcaller", "executes_trio_from_ccaller", "executes_asyncio_from_ccaller"]
     need += ["awaitable_results_returned_as_they_are_%s" % f for f in common.FLAVOURS]
     need += ["executes_of_callable_kind_%s" % k for k in ("function", "lambda", "wrapped", "partial", "object", "method", "prefixed", "marked")]
-    need += ["synchronous_first_sections_checked", "executes_after_a_restart", "executes_on_a_runner_accepting_again"]
+    need += ["executes_by_thread_payloads_queued_before_start", "synchronous_first_sections_checked", "executes_after_a_restart", "executes_on_a_runner_accepting_again"]
     for name in need:
         if not total.counters.get(name) and not total.violations:
             total.inconc("monitor never observed: " + name)
